@@ -10,8 +10,12 @@
  * Lines (operation ` | ` observation):
  *   C <k> arith                                          UpdateNextCheck arithmetic under the virtual clock
  *   U <now_us> <offset> <check_us> <retry_us> <soft>     | <next_check in ns>
- *   C <k> sched seed=<s> n=<n> pool=<p> max=<m> dur_ms=<d> mut=<t> bound_ms=<b>     one real-time scenario
- *   K <cid> <enabled 0|1> <check_us> <retry_us>          declaration (enabled = active checks on and period open)
+ *   C <k> sched seed=<s> n=<n> pool=<p> max=<m> dur_ms=<d> mut=<t> bound_ms=<b> [script=wakeup]    one real-time scenario
+ *         script=wakeup: scripted liveness probe (n=2, max=1, no mutator threads): while A's command runs A is paused (leaves
+ *         the pending set) and B is made due; when A's helper finishes the freed slot must wake the scheduler for B at once
+ *         (F-C04a); repeated 12 times, the driver takes the median of the delays
+ *   K <cid> <enabled 0|1> <check_us> <retry_us> <async>  declaration (enabled = active checks on and period open; async = the
+ *                                                        command behaves like PluginCheckTask: spawns and returns)
  *   E pick <cid> <forced>   | <inIdle> <inPending> <key_us> <now_us> <counter>      scheduler dispatched <cid>
  *   E skip <cid> 0          | <inIdle> <inPending> <key_us> <now_us> <counter>      scheduler skipped <cid>
  *   E fin <cid>             | <inIdle> <inPending> <key_us> <now_us>   ExecuteCheckHelper's final section
@@ -19,13 +23,16 @@
  *   E nc <cid>              | <inIdle> <inPending> <key_us> <now_us>   NextCheckChangedHandler re-indexed
  *   E dec <cid>                                                   helper about to DecreasePendingChecks
  *   E gE|gB|gR <cid>                                              m_CheckRunning: set / found busy / reset
- *   E xs|xe <cid>           | <now_us>                            command function started / about to deliver
+ *   E xs|xe <cid>           | <now_us>                            command started / finished (body returned or process exited)
+ *   E as <cid>                                                    async command: process spawned (pluginchecktask.cpp:56)
+ *   E pi <cid>                                                    … its own IncreasePendingChecks (:61)   } done under the checker's
+ *   E pd <cid>                                                    process finished: DecreasePendingChecks (:68) } mutex: trace order = real order
  *   E ob|oe <cid> <kind> [<value_us>]                             harness operation begins / has returned
  *                              kinds: pause resume activate deactivate setnext notify (OnPausedChanged fired without a change)
  *   E force <cid>                                                 SetForceNextCheck(true) (under the checker's mutex)
  *   W <cid>                 | <now_before_us> <now_after_us> <next_us> <interval_us>
  *   Q <cid>                 | <schedulable> <inIdle> <inPending> <key_us> <next_us>  at quiescence
- *   M max_parallel=<..> overlap=<..> execs=<..> overdue_max_us=<..> canary_max_us=<..> hang=<0|1>   harness monitor
+ *   M max_parallel=<..> overlap=<..> execs=<..> async_execs=<..> overdue_max_us=<..> canary_max_us=<..> hang=<0|1>   harness monitor
  *
  * Modes:  gen --seed S --tier quick|thorough       ops FILE      scen <k> key=value...   (internal)
  */
@@ -44,8 +51,11 @@
 #include <map>
 #include <mutex>
 #include <thread>
+#include <functional>
 #include <unordered_map>
 #include <sys/wait.h>
+#include <sys/syscall.h>
+#include <fstream>
 
 using namespace icinga;
 using namespace vh;
@@ -125,8 +135,8 @@ static void GenArith(Rng& rng, int count)
 /* ------------------------------------------------------------------------------------------- */
 /* scenario process */
 
-enum Kind : uint8_t { kPick, kSkip, kFin, kObj, kNc, kDec, kGE, kGB, kGR, kXs, kXe, kOb, kOe, kForce, kWin };
-static const char *l_KindName[] = { "pick", "skip", "fin", "obj", "nc", "dec", "gE", "gB", "gR", "xs", "xe", "ob", "oe", "force", "W" };
+enum Kind : uint8_t { kPick, kSkip, kFin, kObj, kNc, kDec, kGE, kGB, kGR, kXs, kXe, kOb, kOe, kForce, kWin, kAs, kPi, kPd };
+static const char *l_KindName[] = { "pick", "skip", "fin", "obj", "nc", "dec", "gE", "gB", "gR", "xs", "xe", "ob", "oe", "force", "W", "as", "pi", "pd" };
 enum OpKind : uint8_t { oPause, oResume, oActivate, oDeactivate, oSetNext, oNotify };
 static const char *l_OpName[] = { "pause", "resume", "activate", "deactivate", "setnext", "notify" };
 
@@ -145,7 +155,9 @@ struct CInfo {
 	bool enabled;
 	long long checkUs, retryUs;
 	int mode;           /* 0 ok, 1 alternating ok/critical, 2 throws sometimes, 3 always critical */
+	bool async{false};  /* command spawns a "process" (own thread) and returns, like PluginCheckTask */
 	double execMeanUs;
+	long long fixedExecUs{-1}; /* scripted scenarios: exactly this long */
 	/* harness view, guarded by mut */
 	std::mutex mut;
 	bool activated{false}, deactivated{false}, paused{true};
@@ -160,9 +172,11 @@ static std::vector<CInfo*> l_C;
 static std::unordered_map<const void*, int> l_Ids;
 static CheckerComponent::Ptr l_Checker;
 static uint64_t l_Seed;
-static std::atomic<long> l_Picks{0}, l_Finishes{0}, l_Execs{0};
+static std::atomic<long> l_Picks{0}, l_Finishes{0}, l_Execs{0}, l_AsyncLive{0}, l_AsyncExecs{0};
 static std::atomic<int> l_Parallel{0}, l_MaxParallel{0}, l_Overlap{0};
 static std::atomic<bool> l_Stop{false};
+static std::atomic<long> l_SchedTid{0};
+static std::atomic<long long> l_LastSchedUs{0};
 static std::atomic<int> l_DelayPermille{60};
 
 static thread_local Rng *t_Rng = nullptr;
@@ -204,6 +218,9 @@ static void Hook(const char *name, const void *obj)
 	bool sets = false;
 
 	if (name[0] == 's') { /* sched.* */
+		if (!l_SchedTid.load(std::memory_order_relaxed))
+			l_SchedTid = (long)syscall(SYS_gettid);
+		l_LastSchedUs.store(Us(Utility::GetTime()), std::memory_order_relaxed);
 		if (!strcmp(name, "sched.pick")) { r.kind = kPick; r.a = 0; sets = true; }
 		else if (!strcmp(name, "sched.pick.forced")) { r.kind = kPick; r.a = 1; sets = true; }
 		else if (!strcmp(name, "sched.skip")) { r.kind = kSkip; sets = true; }
@@ -242,6 +259,27 @@ static void Hook(const char *name, const void *obj)
 	MaybeDelay();
 }
 
+/* hand the result to ProcessCheckResult and measure where next_check ends up */
+static void Deliver(const Checkable::Ptr& checkable, const CheckResult::Ptr& cr, int cid, int state, unsigned ep0)
+{
+	CInfo& ci = *l_C[cid];
+	cr->SetState((ServiceState)state);
+	cr->SetOutput("x");
+	double nb = Utility::GetTime();
+	cr->SetExecutionEnd(nb);
+	cr->SetScheduleEnd(nb);
+	checkable->ProcessCheckResult(cr);
+	double na = Utility::GetTime();
+	double next = checkable->GetNextCheck();
+	double iv = (checkable->GetStateType() == StateTypeSoft && checkable->GetLastCheckResult() != nullptr)
+		? checkable->GetRetryInterval() : checkable->GetCheckInterval();
+	unsigned ep1 = ci.epoch.load();
+	if (ep0 == ep1 && !(ep0 & 1)) { /* nobody else rescheduled this checkable meanwhile */
+		Rec r{}; r.kind = kWin; r.cid = cid; r.key = Us(nb); r.now = Us(na); r.x = Us(next); r.y = Us(iv);
+		Append(r);
+	}
+}
+
 /* CheckCommand.execute */
 static void ExecFn(const Checkable::Ptr& checkable, const CheckResult::Ptr& cr, const Dictionary::Ptr&, bool)
 {
@@ -267,14 +305,48 @@ static void ExecFn(const Checkable::Ptr& checkable, const CheckResult::Ptr& cr, 
 	int k = (int)rng.below(20);
 	if (k == 0) us = 0;
 	else if (k == 1) us *= 5;
-	if (us >= 1)
-		std::this_thread::sleep_for(std::chrono::microseconds((long long)us));
-
-	bool doThrow = (ci.mode == 2 && rng.below(3) == 0);
+	if (ci.fixedExecUs >= 0) us = (double)ci.fixedExecUs;
+	bool doThrow = (!ci.async && ci.mode == 2 && rng.below(3) == 0);
 	int state = 0;
 	if (ci.mode == 1) state = (no / 2) % 2 ? 2 : 0;
 	else if (ci.mode == 3) state = 2;
 	else if (ci.mode == 2) state = (int)rng.below(4);
+
+	if (ci.async) {
+		/* PluginCheckTask::ScriptFunc: spawn (the callback may run at any time from now on), then the task's own +1 */
+		{ Rec r{}; r.kind = kAs; r.cid = cid; Append(r); }
+		l_AsyncLive++;
+		l_AsyncExecs++;
+		long long sleepUs = (long long)us;
+		std::thread([checkable, cr, cid, sleepUs, state, ep0]() {
+			CInfo& ci = *l_C[cid];
+			if (sleepUs >= 1)
+				std::this_thread::sleep_for(std::chrono::microseconds(sleepUs));
+			{ Rec r{}; r.kind = kXe; r.cid = cid; r.now = Us(Utility::GetTime()); Append(r); }
+			--l_Parallel;
+			ci.running.fetch_sub(1);
+			{
+				/* PluginCheckTask::ProcessFinishedHandler: give the unit back first; under the checker's mutex so that the
+				 * trace order is the order in which the scheduler saw the counter */
+				std::unique_lock<std::mutex> lock(l_Checker.get()->*get(C04MtxTag()));
+				Rec r{}; r.kind = kPd; r.cid = cid; Append(r);
+				Checkable::DecreasePendingChecks();
+			}
+			MaybeDelay();
+			Deliver(checkable, cr, cid, state, ep0);
+			l_AsyncLive--;
+		}).detach();
+		MaybeDelay();
+		{
+			std::unique_lock<std::mutex> lock(l_Checker.get()->*get(C04MtxTag()));
+			Checkable::IncreasePendingChecks();
+			Rec r{}; r.kind = kPi; r.cid = cid; Append(r);
+		}
+		return;
+	}
+
+	if (us >= 1)
+		std::this_thread::sleep_for(std::chrono::microseconds((long long)us));
 
 	{ Rec r{}; r.kind = kXe; r.cid = cid; r.now = Us(Utility::GetTime()); Append(r); }
 	--l_Parallel;
@@ -283,21 +355,7 @@ static void ExecFn(const Checkable::Ptr& checkable, const CheckResult::Ptr& cr, 
 	if (doThrow)
 		BOOST_THROW_EXCEPTION(std::runtime_error("seeded failure of the check command"));
 
-	cr->SetState((ServiceState)state);
-	cr->SetOutput("x");
-	double nb = Utility::GetTime();
-	cr->SetExecutionEnd(nb);
-	cr->SetScheduleEnd(nb);
-	checkable->ProcessCheckResult(cr);
-	double na = Utility::GetTime();
-	double next = checkable->GetNextCheck();
-	double iv = (checkable->GetStateType() == StateTypeSoft && checkable->GetLastCheckResult() != nullptr)
-		? checkable->GetRetryInterval() : checkable->GetCheckInterval();
-	unsigned ep1 = ci.epoch.load();
-	if (ep0 == ep1 && !(ep0 & 1)) { /* nobody else rescheduled this checkable meanwhile */
-		Rec r{}; r.kind = kWin; r.cid = cid; r.key = Us(nb); r.now = Us(na); r.x = Us(next); r.y = Us(iv);
-		Append(r);
-	}
+	Deliver(checkable, cr, cid, state, ep0);
 }
 
 static void LogOp(Kind k, int cid, OpKind op, long long value = 0)
@@ -427,7 +485,7 @@ static void PrintTrace(FILE *out)
 			case kPick: fprintf(out, "E pick %d %d | %d %d %lld %lld %d\n", r.cid, (int)r.a, r.inIdle, r.inPending, r.key, r.now, r.counter); break;
 			case kSkip: fprintf(out, "E skip %d 0 | %d %d %lld %lld %d\n", r.cid, r.inIdle, r.inPending, r.key, r.now, r.counter); break;
 			case kFin: case kObj: case kNc: fprintf(out, "E %s %d | %d %d %lld %lld\n", k, r.cid, r.inIdle, r.inPending, r.key, r.now); break;
-			case kDec: case kGE: case kGB: case kGR: case kForce: fprintf(out, "E %s %d\n", k, r.cid); break;
+			case kDec: case kGE: case kGB: case kGR: case kForce: case kAs: case kPi: case kPd: fprintf(out, "E %s %d\n", k, r.cid); break;
 			case kXs: case kXe: fprintf(out, "E %s %d | %lld\n", k, r.cid, r.now); break;
 			case kOb: case kOe:
 				if (r.a == oSetNext) fprintf(out, "E %s %d %s %lld\n", k, r.cid, l_OpName[r.a], r.x);
@@ -450,6 +508,8 @@ static int RunScenario(const std::vector<std::string>& w)
 		return 0;
 	}
 	Rng rng(l_Seed);
+	bool wakeup = kv.count("script") && kv["script"] == "wakeup";
+	if (wakeup) { n = 2; pool = 0; maxc = 1; mut = 0; }
 
 	Configuration::Concurrency = 12; /* thread pool = 24 threads */
 	InitIcinga();
@@ -505,6 +565,7 @@ static int RunScenario(const std::vector<std::string>& w)
 		ci->checkUs = ivUs;
 		ci->retryUs = rvUs;
 		ci->mode = (int)rng.below(4);
+		ci->async = rng.below(3) == 0 && !getenv("C04_NOASYNC");
 		if (enabled)
 			demand += 1e6 / (double)std::min(ivUs, rvUs);
 		h->Register();
@@ -517,11 +578,20 @@ static int RunScenario(const std::vector<std::string>& w)
 	meanUs = std::min(20000.0, std::max(150.0, meanUs));
 	for (CInfo *ci : l_C)
 		ci->execMeanUs = meanUs * (0.3 + rng.below(1400) / 1000.0);
+	if (wakeup) {
+		for (CInfo *ci : l_C) {
+			ci->async = false; ci->mode = 0; ci->enabled = true;
+			ci->obj->SetEnableActiveChecks(true); ci->obj->SetCheckPeriodRaw("");
+			ci->obj->SetCheckInterval(30); ci->obj->SetRetryInterval(30); ci->checkUs = ci->retryUs = 30000000;
+		}
+		l_C[0]->fixedExecUs = 80000;
+		l_C[1]->fixedExecUs = 1000;
+	}
 
-	printf("%s %s sched seed=%llu n=%d pool=%d max=%d dur_ms=%d mut=%d bound_ms=%s\n", w[0].c_str(), w[1].c_str(),
-		(unsigned long long)l_Seed, n, pool, maxc, durMs, mut, kv["bound_ms"].c_str());
+	printf("%s %s sched seed=%llu n=%d pool=%d max=%d dur_ms=%d mut=%d bound_ms=%s%s\n", w[0].c_str(), w[1].c_str(),
+		(unsigned long long)l_Seed, n, pool, maxc, durMs, mut, kv["bound_ms"].c_str(), wakeup ? " script=wakeup" : "");
 	for (int i = 0; i < total; i++)
-		printf("K %d %d %lld %lld\n", i, l_C[i]->enabled ? 1 : 0, l_C[i]->checkUs, l_C[i]->retryUs);
+		printf("K %d %d %lld %lld %d\n", i, l_C[i]->enabled ? 1 : 0, l_C[i]->checkUs, l_C[i]->retryUs, l_C[i]->async ? 1 : 0);
 
 	l_DelayPermille = 20 + (int)rng.below(120);
 	VerifPointHook() = Hook;
@@ -552,6 +622,46 @@ static int RunScenario(const std::vector<std::string>& w)
 		}
 	});
 
+	std::thread sampler;
+	if (getenv("C04_DEBUG"))
+		sampler = std::thread([&]() {
+			auto slurp = [](const std::string& path) { std::ifstream f(path); std::string x((std::istreambuf_iterator<char>(f)), std::istreambuf_iterator<char>()); return x; };
+			while (!done.load()) {
+				std::this_thread::sleep_for(std::chrono::milliseconds(40));
+				long tid = l_SchedTid.load();
+				long long nowUs = Us(Utility::GetTime());
+				if (!tid || nowUs - l_LastSchedUs.load() < 250000)
+					continue;
+				bool due = false;
+				int cnt = Checkable::GetPendingChecks();
+				{
+					std::unique_lock<std::mutex> lock(l_Checker.get()->*get(C04MtxTag()));
+					auto& idle = l_Checker.get()->*get(C04IdleTag());
+					for (const auto& csi : idle)
+						if (Us(csi.NextCheck) < nowUs - 250000) { due = true; break; }
+				}
+				if (!due || cnt >= maxc)
+					continue;
+				std::string base = "/proc/self/task/" + std::to_string(tid) + "/";
+				std::string st = slurp(base + "stat");
+				fprintf(stderr, "STALL since_sched_us=%lld cnt=%d stat=[%.120s] wchan=[%s] syscall=[%s] stack=[%s]\n", nowUs - l_LastSchedUs.load(), cnt,
+					st.c_str(), slurp(base + "wchan").c_str(), slurp(base + "syscall").c_str(), slurp(base + "stack").c_str());
+			}
+		});
+
+	/* more canaries: a stall of the machine shows up as oversleep of at least one of them */
+	std::vector<std::thread> canaries;
+	for (int i = 0; i < 3; i++)
+		canaries.emplace_back([&]() {
+			while (!done.load()) {
+				auto a = std::chrono::steady_clock::now();
+				std::this_thread::sleep_for(std::chrono::milliseconds(7));
+				long long over = std::chrono::duration_cast<std::chrono::microseconds>(std::chrono::steady_clock::now() - a).count() - 7000;
+				long long cur = canaryMax.load();
+				while (over > cur && !canaryMax.compare_exchange_weak(cur, over)) { }
+			}
+		});
+
 	/* initial activation from the main thread (config load), resumed like ApiListener::UpdateObjectAuthority does */
 	for (int i = 0; i < n; i++) {
 		std::unique_lock<std::mutex> lock(l_C[i]->mut);
@@ -563,7 +673,39 @@ static int RunScenario(const std::vector<std::string>& w)
 	std::vector<std::thread> threads;
 	for (int i = 0; i < mut; i++)
 		threads.emplace_back(Mutator, i, n);
-	std::this_thread::sleep_for(std::chrono::milliseconds(durMs));
+	if (wakeup) {
+		l_DelayPermille = 0;
+		auto waitFor = [](std::function<bool()> cond, int ms) {
+			for (int i = 0; i < ms * 2 && !cond(); i++)
+				std::this_thread::sleep_for(std::chrono::microseconds(500));
+			return cond();
+		};
+		CInfo& A = *l_C[0];
+		CInfo& B = *l_C[1];
+		{ std::unique_lock<std::mutex> la(A.mut); if (A.paused) OpResume(0); }
+		{ std::unique_lock<std::mutex> lb(B.mut); if (B.paused) OpResume(1); }
+		std::this_thread::sleep_for(std::chrono::milliseconds(50));
+		for (int rep = 0; rep < 12; rep++) {
+			/* both idle and not due for a long time; nothing running */
+			waitFor([&]() { return Checkable::GetPendingChecks() == 0; }, 3000);
+			{ std::unique_lock<std::mutex> la(A.mut); OpSetNext(0, Utility::GetTime() + 600); }
+			{ std::unique_lock<std::mutex> lb(B.mut); OpSetNext(1, Utility::GetTime() + 600); }
+			std::this_thread::sleep_for(std::chrono::milliseconds(20));
+			/* start A (80 ms) */
+			{ std::unique_lock<std::mutex> la(A.mut); OpSetNext(0, Utility::GetTime()); }
+			if (!waitFor([&]() { return A.running.load() > 0; }, 2000))
+				continue;
+			unsigned bBefore = B.execNo.load();
+			/* A leaves the pending set while its command runs; B becomes due: the only slot is taken, the scheduler polls */
+			{ std::unique_lock<std::mutex> la(A.mut); OpPause(0); }
+			{ std::unique_lock<std::mutex> lb(B.mut); OpSetNext(1, Utility::GetTime()); }
+			/* A's helper finishes ~75 ms from now; B must start right after */
+			waitFor([&]() { return B.execNo.load() > bBefore; }, 3000);
+			std::this_thread::sleep_for(std::chrono::milliseconds(30));
+			{ std::unique_lock<std::mutex> la(A.mut); OpResume(0); }
+		}
+	} else
+		std::this_thread::sleep_for(std::chrono::milliseconds(durMs));
 	l_Stop = true;
 	for (auto& t : threads)
 		t.join();
@@ -586,9 +728,9 @@ static int RunScenario(const std::vector<std::string>& w)
 
 	/* stop the scheduler, let the dispatched helpers finish, then the quiescent snapshot */
 	l_Checker->Deactivate();
-	for (int i = 0; i < 4000 && l_Finishes.load() < l_Picks.load(); i++)
+	for (int i = 0; i < 4000 && (l_Finishes.load() < l_Picks.load() || l_AsyncLive.load() > 0); i++)
 		std::this_thread::sleep_for(std::chrono::milliseconds(5));
-	if (l_Finishes.load() < l_Picks.load())
+	if (l_Finishes.load() < l_Picks.load() || l_AsyncLive.load() > 0)
 		hang = true;
 	std::this_thread::sleep_for(std::chrono::milliseconds(20));
 
@@ -608,8 +750,12 @@ static int RunScenario(const std::vector<std::string>& w)
 	}
 	done = true;
 	canary.join();
-	printf("M max_parallel=%d overlap=%d execs=%ld overdue_max_us=%lld canary_max_us=%lld hang=%d counter_end=%d\n",
-		l_MaxParallel.load(), l_Overlap.load(), l_Execs.load(), overdueMax, canaryMax.load(), hang.load() ? 1 : 0,
+	for (auto& t : canaries)
+		t.join();
+	if (sampler.joinable())
+		sampler.join();
+	printf("M max_parallel=%d overlap=%d execs=%ld async_execs=%ld overdue_max_us=%lld canary_max_us=%lld hang=%d counter_end=%d\n",
+		l_MaxParallel.load(), l_Overlap.load(), l_Execs.load(), l_AsyncExecs.load(), overdueMax, canaryMax.load(), hang.load() ? 1 : 0,
 		Checkable::GetPendingChecks());
 	fflush(stdout);
 	return 0;
@@ -728,7 +874,15 @@ int main(int argc, char **argv)
 			int mut = 1 + (int)rng.below(4);
 			char buf[256];
 			snprintf(buf, sizeof(buf), "C %d sched seed=%llu n=%d pool=%d max=%d dur_ms=%d mut=%d bound_ms=%d", caseNo++,
-				(unsigned long long)(rng.next() >> 16), n, pool, maxc, dur, mut, thorough ? 2500 : 1200);
+				(unsigned long long)(rng.next() >> 16), n, pool, maxc, dur, mut, 2500);
+			Job j;
+			j.line = buf;
+			jobs.push_back(j);
+		}
+		for (int i = 0; i < (thorough ? 3 : 1); i++) {
+			char buf[256];
+			snprintf(buf, sizeof(buf), "C %d sched seed=%llu n=2 pool=0 max=1 dur_ms=3000 mut=0 bound_ms=2500 script=wakeup", caseNo++,
+				(unsigned long long)(rng.next() >> 16));
 			Job j;
 			j.line = buf;
 			jobs.push_back(j);
